@@ -23,8 +23,8 @@ CASE_T = "wcase"
 XSI = "http://www.w3.org/2001/XMLSchema-instance"
 XS = "http://www.w3.org/2001/XMLSchema"
 XMLNS = "http://www.w3.org/XML/1998/namespace"
-URIS = ["urn:a", "urn:b", XSI, XS, XMLNS, "http://x.org/c?d=1"]
-URIS_W = [30, 22, 8, 6, 3, 4]
+URIS = ["urn:a", "urn:b", XSI, XS, XMLNS, "http://x.org/c?d=1", "q"]      # "q" is also a user prefix
+URIS_W = [30, 22, 8, 6, 3, 4, 3]
 HOSTILE_URIS = ['urn:q"t', "urn:l<t", "urn:a&b", "http://x.org/c?d=1&e=2"]
 LOCALS = ["a", "b", "c", "x", "type", "nil", "lang", "é1", "_z.-9"]
 HOSTILE_LOCALS = ["a b", "1a", "xmlns", "a:b"]
